@@ -1235,6 +1235,13 @@ impl Database {
 
         while ref_cursor.valid() {
             let existing_value = ref_cursor.value()?;
+            if existing_value.len() >= crate::mvcc::RecordHeader::SIZE
+                && crate::mvcc::RecordHeader::from_bytes(existing_value).is_deleted()
+            {
+                // a deleted parent row references nothing
+                ref_cursor.advance()?;
+                continue;
+            }
             let user_data = crate::database::dml::mvcc_helpers::get_user_data(existing_value);
             let existing_record = crate::records::RecordView::new(user_data, &ref_schema)?;
             let existing_values =
